@@ -174,8 +174,19 @@ fn run_worker(
         cmd.env(k, v);
     }
     let mem = opts.mem_mb;
+    // proc.cpu_count: the simulated process may see 1, 2, 5 or all CPUs (what
+    // available_parallelism reports follows the affinity mask)
+    let cpus: usize = env.iter().find(|(k, _)| k == "VERIF_CPUS").and_then(|(_, v)| v.parse().ok()).unwrap_or(0);
     unsafe {
         cmd.pre_exec(move || {
+            if cpus > 0 {
+                let mut set: libc::cpu_set_t = std::mem::zeroed();
+                libc::CPU_ZERO(&mut set);
+                for c in 0..cpus {
+                    libc::CPU_SET(c, &mut set);
+                }
+                libc::sched_setaffinity(0, std::mem::size_of::<libc::cpu_set_t>(), &set);
+            }
             if mem > 0 {
                 let lim = libc::rlimit {
                     rlim_cur: mem * 1024 * 1024,
